@@ -201,8 +201,10 @@ def rule_r3(ctx) -> RuleResult:
     if fai is None:
         raise AnalysisError("frame_args_index vanished")
     ok = False
+    # the flag is whatever local is bound to v[1]
+    flags = [n.names[0] for n in L.walk(fai) if n.kind == "local" and n.exprs and L.text(n.exprs[0]).endswith("[1]") and len(n.names) == 1]
     for n in L.walk(fai):
-        if n.kind == "if" and len(n.clauses) == 1 and L.text(n.clauses[0][0]) == "is_named":
+        if n.kind == "if" and len(n.clauses) == 1 and L.text(n.clauses[0][0]) in flags:
             body = n.clauses[0][1]
             if len(body) == 1 and body[0].kind == "assign" and "match" in L.text(body[0].exprs[0]) and "%s*(.-)%s*" in L.text(body[0].exprs[0]):
                 # the trimmed value must be the *preprocessed* one
